@@ -21,6 +21,24 @@ def tempOps (as : List (Name × Value)) : List Op :=
 def globalOps (as : List (Name × Value)) : List Op :=
   as.map fun (n, v) => Op.assign n .global v none
 
+/-- the value of one assignment of a command's prefix: a literal, or `$n` (a parameter expansion of
+    another variable; in an assignment there is no field splitting) -/
+inductive AVal where
+  | lit (v : Value)
+  | ref (n : Name)
+
+/-- what `$n` expands to as an assignment value: the scalar itself, the elements of an array joined
+    by a space, the empty string for an unset or valueless variable -/
+def valueOfVar : Option Variable → Value
+  | some { value := some (.scalar x), .. } => .scalar x
+  | some { value := some (.array xs), .. } => .scalar (" ".intercalate xs)
+  | _ => .scalar ""
+
+/-- `assign::perform_assignment` for one already expanded value: `get_or_create_variable(n, scope)`,
+    `assign`, and `export(true)` when `export` is set -/
+def assignOps (sc : Scope) (ex : Bool) (n : Name) (v : Value) : List Op :=
+  Op.assign n sc v none :: (if ex then [Op.export n sc true] else [])
+
 /-- a command without a command name, or a special built-in: assignments at `Global` scope in the
     current contexts, then whatever the built-in does (`body`) -/
 def specialCmd (as : List (Name × Value)) (body : List Op) : List Op := globalOps as ++ body
